@@ -1,5 +1,5 @@
-(* C04 -- property theorems (statements only; proofs live in proofs/). *)
-From Clip Require Import model.Owner.
+(* C04 -- property theorems (statements only; proofs live in proofs/Owner.v). *)
+From Clip Require Import model.Owner proofs.Owner.
 From Coq Require Import List Bool Arith.
 Import ListNotations.
 
@@ -8,3 +8,40 @@ Import ListNotations.
 Theorem C04_level_hole : forall d, is_hole_of_level (S d) = Nat.odd d.
 Proof. intros d. unfold is_hole_of_level. cbn [Nat.eqb negb andb]. rewrite Nat.even_succ. reflexivity. Qed.
 Print Assumptions C04_level_hole.
+
+(* For every history of owner edits (SetOwner with its compression and cycle-avoidance loops, owner = nullptr,
+   owner = GetRealOutRec(owner), pts = nullptr, new OutRecs owned by an OutRec or by its owner, the IsValidOwner-guarded
+   assignment, the climbing step, split-list edits) in which SetOwner is called with two different existing OutRecs and
+   new owners exist (run_ok: what every call site guarantees), no loop of the model runs out of fuel (= no loop of the
+   code fails to terminate), the owner graph is a forest, and no owner index dangles. *)
+Theorem C04_owner_forest : forall ops, run_ok [] ops ->
+  exists m, run_ops [] ops = Some m /\ acyclic m /\ (forall i o, owner_of m i = Some o -> o < length m).
+Proof. exact owner_forest. Qed.
+Print Assumptions C04_owner_forest.
+
+(* ... and in such a state GetRealOutRec, IsValidOwner and SetOwner terminate within the fuel of the executable model,
+   so a HANG answer of the extracted model is a genuine non-termination. *)
+Theorem C04_owner_loops_terminate : forall m, acyclic m -> (forall i o, owner_of m i = Some o -> o < length m) ->
+  forall i j,
+    (exists r, get_real (fuel_of m) m (Some i) = Some r) /\
+    (exists b, is_valid_owner (fuel_of m) m i j = Some b) /\
+    (i <> j -> j < length m -> exists m', set_owner (fuel_of m) m i j = Some m').
+Proof. exact owner_loops_terminate. Qed.
+Print Assumptions C04_owner_loops_terminate.
+
+(* The call-site guarantee is necessary: SetOwner(x, x) makes x its own owner (replayed on the real SetOwner by the check). *)
+Theorem C04_owner_forest_refuted_without_wf : exists ops m, run_ops [] ops = Some m /\ ~ acyclic m.
+Proof. exact owner_forest_refuted_without_wf. Qed.
+Print Assumptions C04_owner_forest_refuted_without_wf.
+
+(* Whatever the ownership state and whatever the answers of the geometric tests, every parent that BuildTree64's owner
+   search (RecursiveCheckOwners + CheckSplitOwner, in each of its shapes own_first/mark_owner) gives to a polygon passed
+   the code's own containment tests for exactly that pair: Path1InsidePath2(child, parent) and
+   parent.bounds.Contains(child.bounds).  (That Path1InsidePath2 agrees with true containment, and that the accepted
+   parent is the innermost container, is NOT proved -- that is what the exact checker tree_check validates.) *)
+Theorem C04_tree_parent_inside :
+  forall (inside bcontains : nat -> nat -> bool) (bempty is_open : nat -> bool) (own_first mark_owner : bool) fuel m m' t i p,
+    build_tree inside bcontains bempty is_open own_first mark_owner fuel m = Some (Some (m', t)) ->
+    parent_of t i = Some (Some p) -> inside i p = true /\ bcontains p i = true.
+Proof. exact tree_parent_inside. Qed.
+Print Assumptions C04_tree_parent_inside.
